@@ -659,6 +659,180 @@ func TestBattery2Locks(t *testing.T) {
 	}
 }
 
+// battery 3: TryLock / TryRLock guard idioms, and look-alikes that must NOT count as held
+const lockSrc4 = `package p
+
+import "sync"
+
+type memo struct {
+	guard sync.Mutex
+	val   int
+}
+
+func (m *memo) get() (int, bool) {
+	if !m.guard.TryLock() {
+		return 0, false
+	}
+	v := m.val
+	m.guard.Unlock()
+	return v, true
+}
+func (m *memo) put(v int) {
+	if !m.guard.TryLock() {
+		return
+	}
+	m.val = v
+	m.guard.Unlock()
+}
+
+type X struct {
+	g    sync.RWMutex
+	n    int
+	memo memo
+}
+
+// (a) if !x.TryLock() { terminating branch }
+func (x *X) SetGuard() {
+	if !x.g.TryLock() {
+		return
+	}
+	x.n = 1
+	x.g.Unlock()
+}
+func (x *X) SetGuardLoop(items []int) {
+	for _, it := range items {
+		if !x.g.TryLock() {
+			continue
+		}
+		x.n = it
+		x.g.Unlock()
+	}
+}
+func (x *X) GetGuardR() int {
+	if !x.g.TryRLock() {
+		return -1
+	}
+	defer x.g.RUnlock()
+	return x.n
+}
+
+// (b) if x.TryLock() { … }
+func (x *X) SetThenDefer() {
+	if x.g.TryLock() {
+		defer x.g.Unlock()
+		x.n = 2
+	}
+}
+func (x *X) SetThenExplicit() {
+	if x.g.TryLock() {
+		x.n = 3
+		x.g.Unlock()
+	}
+}
+
+// (c) through a bool that is assigned once
+func (x *X) SetBoolNeg() {
+	ok := x.g.TryLock()
+	if !ok {
+		return
+	}
+	x.n = 4
+	x.g.Unlock()
+}
+func (x *X) SetBoolPos() {
+	ok := x.g.TryLock()
+	if ok {
+		x.n = 5
+		x.g.Unlock()
+	}
+}
+
+// the memo of rewrite 12: a nested struct with its own guard
+func (x *X) MemoGet() (int, bool) { return x.memo.get() }
+func (x *X) MemoPut(v int)        { x.memo.put(v) }
+
+// look-alikes: none of these holds the lock at the write
+func (x *X) BadIgnored() {
+	x.g.TryLock()
+	x.n = 10
+}
+func (x *X) BadAfterBranch() {
+	if x.g.TryLock() {
+	}
+	x.n = 11
+}
+func (x *X) BadFallsThrough() {
+	if !x.g.TryLock() {
+		println("busy")
+	}
+	x.n = 12
+}
+func (x *X) BadReassigned() {
+	ok := x.g.TryLock()
+	ok = true
+	if ok {
+		x.n = 13
+	}
+}
+func (x *X) BadCompound(c bool) {
+	if !x.g.TryLock() && c {
+		return
+	}
+	x.n = 14
+}
+func (x *X) BadReadTry() {
+	if !x.g.TryRLock() {
+		return
+	}
+	x.n = 15 // a write under the read side
+	x.g.RUnlock()
+}
+`
+
+func TestTryLockShapes(t *testing.T) {
+	r := runLocksSrc(t, lockSrc4, "X")
+	good := []string{"SetGuard", "SetGuardLoop", "SetThenDefer", "SetThenExplicit", "SetBoolNeg", "SetBoolPos"}
+	for _, fn := range good {
+		if bad := disciplineFails(r, fn, "GetGuardR"); len(bad) != 0 {
+			t.Errorf("%s with GetGuardR is race free but fails on %v", fn, bad)
+		}
+		ok := false
+		for _, x := range r {
+			if x.fn == fn && x.loc == "n" && x.write && x.held["g"] == "Ex" {
+				ok = true
+			}
+			if x.fn == fn && x.loc == "n" && x.write && x.held["g"] != "Ex" {
+				t.Errorf("%s: a write of n without g:Ex recorded: %+v", fn, x)
+			}
+		}
+		if !ok {
+			t.Errorf("%s: the write of n must be held g:Ex", fn)
+		}
+	}
+	if bad := disciplineFails(r, "MemoGet", "MemoPut"); len(bad) != 0 {
+		t.Errorf("memo with its own TryLock guard fails on %v", bad)
+	}
+	found := false
+	for _, x := range r {
+		if x.fn == "MemoPut" && x.loc == "memo.val" && x.write && x.held["memo.guard"] == "Ex" {
+			found = true
+		}
+	}
+	if !found {
+		t.Errorf("m.val = v after the guard idiom must be a write of memo.val held memo.guard:Ex")
+	}
+	for _, fn := range []string{"BadIgnored", "BadAfterBranch", "BadFallsThrough", "BadReassigned", "BadCompound", "BadReadTry"} {
+		if bad := disciplineFails(r, fn, "GetGuardR"); len(bad) == 0 {
+			t.Errorf("%s does not hold the lock at its write but the discipline passes", fn)
+		}
+		for _, x := range r {
+			if x.fn == fn && x.loc == "n" && x.write && x.held["g"] == "Ex" {
+				t.Errorf("%s: the lock must NOT count as held: %+v", fn, x)
+			}
+		}
+	}
+}
+
 // B6: the struct type may live in another file than the one named
 func TestTypeInOtherFile(t *testing.T) {
 	dir := t.TempDir()
